@@ -261,10 +261,10 @@ func (e *Encoder) classDef(x *Value) int {
 		return i
 	}
 	e.Out = append(e.Out, 'C')
-	e.str(x.Type, false)
+	e.str(x.Type, e.nameChunked())
 	e.int32(int32(len(x.Fields)), false)
 	for _, f := range x.Fields {
-		e.str(f, false)
+		e.str(f, e.nameChunked())
 	}
 	i := len(e.classes)
 	e.classes = append(e.classes, sig)
@@ -515,6 +515,12 @@ func (e *Encoder) splits(point string, n, maxChunk int, free bool) []int {
 	return lens
 }
 
+// nameChunked: a class name, field name or type name is a string of the grammar like any other and
+// may be written in chunks
+func (e *Encoder) nameChunked() bool {
+	return e.choose("name.form", []string{"name.plain", "name.chunked"}) == "name.chunked"
+}
+
 func (e *Encoder) str(s string, free bool) {
 	n := utf8.RuneCountInString(s)
 	lens := e.splits("str", n, 65535, free)
@@ -613,7 +619,7 @@ func (e *Encoder) typ(t string) {
 		}
 		e.feat("type.literal-repeated")
 	}
-	e.str(t, false)
+	e.str(t, e.nameChunked())
 	e.types[t] = e.ntypes
 	e.ntypes++
 }
